@@ -204,6 +204,8 @@ def t_vmdk(rng):
     elif kind == 'footer_clean':
         p['footer'] = True
         p['data_after'] = rng.choice((512, 4096))
+        if rng.random() < 0.08:
+            p['desc_num'] = rng.choice((2047, 2048, 2049, 4096))
     elif kind == 'footer_bad':
         p['footer'] = True
         p['data_after'] = rng.choice((512, 4096))
@@ -211,6 +213,19 @@ def t_vmdk(rng):
         pert = dict(pert)
         if 'version' in pert:
             pert['version'] = p['version'] % 3 + 1
+        if rng.random() < 0.12:
+            # a descriptor at or beyond the 1 MiB - 1 capture limit
+            p['desc_num'] = rng.choice((2047, 2048, 2049, 4096))
+        if 'desc_num' in pert:
+            # any footer descriptor size other than the header's, small,
+            # around the capture limit, huge
+            h = p['desc_num']
+            pert['desc_num'] = rng.choice([
+                x for x in (0, 1, 7, h - 1, h + 1, 2047, 2048, 2049, 4096,
+                            h * 2, 1 << 32, (1 << 64) - 1)
+                if x != h and x >= 0])
+        if 'desc_sec' in pert:
+            pert['desc_sec'] = rng.choice((0, 2, 3, 1 << 40, (1 << 64) - 1))
         p['footer_p'] = pert
         reasons.append('footer_contradicts:' + _what)
         hint = 'footer'
